@@ -25,6 +25,7 @@ func (m *Mutex) Lock() {
 	}
 	sched.Point(sched.OpLock, m, func() bool { return !m.held })
 	m.held = true
+	sched.Acquired(m, true)
 }
 
 func (m *Mutex) TryLock() bool {
@@ -36,6 +37,7 @@ func (m *Mutex) TryLock() bool {
 		return false
 	}
 	m.held = true
+	sched.Acquired(m, true)
 	return true
 }
 
@@ -48,6 +50,7 @@ func (m *Mutex) Unlock() {
 		panic("vsync: unlock of unlocked mutex")
 	}
 	m.held = false
+	sched.Released(m)
 }
 
 type RWMutex struct {
@@ -63,6 +66,7 @@ func (m *RWMutex) Lock() {
 	}
 	sched.Point(sched.OpLock, m, func() bool { return !m.writer && m.readers == 0 })
 	m.writer = true
+	sched.Acquired(m, true)
 }
 
 func (m *RWMutex) Unlock() {
@@ -74,6 +78,7 @@ func (m *RWMutex) Unlock() {
 		panic("vsync: unlock of unlocked rwmutex")
 	}
 	m.writer = false
+	sched.Released(m)
 }
 
 func (m *RWMutex) RLock() {
@@ -83,6 +88,7 @@ func (m *RWMutex) RLock() {
 	}
 	sched.PointR(sched.OpRLock, m, func() bool { return !m.writer })
 	m.readers++
+	sched.Acquired(m, false)
 }
 
 func (m *RWMutex) RUnlock() {
@@ -94,6 +100,7 @@ func (m *RWMutex) RUnlock() {
 		panic("vsync: runlock of unlocked rwmutex")
 	}
 	m.readers--
+	sched.Released(m)
 }
 
 func (m *RWMutex) RLocker() Locker { return (*rlocker)(m) }
